@@ -26,4 +26,29 @@ PROPS = {
         "thorough": {"runs": [q(deadline=1500, watchdog=3600), dict(q(deadline=900, watchdog=3600), variant="chk")],
                      "floor": {"states": 20000, "distinct_nontrivial": 3000}},
     },
+    "C11": {
+        "eval_counter": "fresh_query_checks",
+        "case_counter": "cases",
+        "rule": "case = (grammar incl. a 'twin prefix' family where two different prefixes return to the same Earley row index and lexer "
+                "state, vocabulary, random program of commits / rollbacks / resets with read-only queries in seeded random order); at every "
+                "state: mask twice, mask after invalidate_bias_cache, and every query (mask, is_accepting, ff bytes, ff tokens, stop status) "
+                "against a *fresh* engine that replayed the same tokens and is asked only that query. evaluations = query comparisons "
+                "against fresh engines. Non-trivial = state compared after the bias cache reported >=1 real hit (hook counter H3) with a "
+                "mask of >=2 and <|V| tokens; distinct by (grammar, history, vocabulary).",
+        "assumptions": ["a freshly built engine replaying the same tokens is the reference for 'no trace left'"],
+        "quick": {"runs": [q(deadline=45)], "floor": {"states": 800, "distinct_nontrivial": 100, "bias_cache_hits_observed": 200}},
+        "thorough": {"runs": [q(deadline=1200, watchdog=3600)], "floor": {"states": 15000, "distinct_nontrivial": 2000}},
+    },
+    "C12": {
+        "eval_counter": "observable_checks",
+        "case_counter": "cases",
+        "rule": "case = random program over {commit k tokens, run to completion, commit EOS, rollback j (1..history), reset}; after every "
+                "rollback the engine is compared with a fresh replay engine on mask, accepting, forced bytes/tokens, stop status and "
+                "validate_tokens probes, and then both are driven in lock-step comparing every mask. evaluations = observable comparisons. "
+                "Non-trivial = rollback of >=2 tokens, or out of a stopped state, or over an EOS; distinct by (grammar, program, vocabulary).",
+        "assumptions": ["fresh replay engine is the reference for 'never saw those k tokens'"],
+        "quick": {"runs": [q(deadline=45)], "floor": {"rollbacks": 800, "distinct_nontrivial": 200, "lockstep_masks": 1500}},
+        "thorough": {"runs": [q(deadline=1200, watchdog=3600), dict(q(deadline=600, watchdog=3600), variant="chk")],
+                     "floor": {"rollbacks": 15000, "distinct_nontrivial": 3000}},
+    },
 }
